@@ -176,3 +176,90 @@ pub fn run_restore(a: &Args) {
 	}
 	rep.write(&a.out);
 }
+
+/// A miner's account that is not the active one: coinbases are built into account `mining`, the wallet
+/// switches back to `default` without ever refreshing `mining`, and the chain grows by more than 100
+/// blocks. C04 (job c04m): after a refresh of `default` and then of `mining`, the records of `mining` must
+/// be exactly its outputs in the UTXO set (one account's refresh must not lose another account's outputs).
+/// C16 (job c16m): a scan with a start height near the tip (and `default` active) must not lose or
+/// misrecord what lies below its range either.
+pub fn run_accounts(a: &Args, prop: &'static str) {
+	use grin_wallet_libwallet::OutputStatus;
+	let mut rep = Report::new(prop);
+	let mut rng = Rng::new(a.shard_seed() ^ 0xACC7);
+	let rounds = if a.thorough() { 3 } else { 1 };
+	for ri in 0..rounds {
+		let dir = format!("{}/acct{}", a.work, ri);
+		let mut w = World::two(&dir);
+		// wallet 0 is replaced by a brand-new wallet (own seed, init status "no scanning")
+		match Wallet::create_new(w.node.clone(), &format!("{}/wnew", dir), "wnew", "") {
+			Ok(nw) => w.wallets[0] = nw,
+			Err(e) => {
+				rep.inconclusive(&format!("could not create a new wallet: {:?}", e));
+				continue;
+			}
+		}
+		let n_cb = 3 + rng.usize(4);
+		let _ = w.wallets[0].create_account("mining");
+		let _ = w.wallets[0].set_account("mining");
+		let _ = w.mine_n(Some(0), n_cb);
+		let _ = w.wallets[0].set_account("default");
+		let mined: Vec<(String, u64)> = w.wallets[0].all_outputs().unwrap_or_default().iter().filter(|o| o.is_coinbase).map(|o| (grin_util::ToHex::to_hex(&w.wallets[0].commit_of(o)), o.value)).collect();
+		// a few coinbases for the default account too, then a long stretch of other people's blocks
+		let _ = w.mine_n(Some(0), 2);
+		let extra = 101 + rng.usize(8);
+		for _ in 0..extra {
+			let _ = w.mine(None, false);
+		}
+		let tip = w.height();
+		let case = json!({"job": a.prop, "coinbases_built_into_account_mining": n_cb, "blocks_since": extra + 2, "tip": tip});
+		let wal = &w.wallets[0];
+		let in_utxo: Vec<&(String, u64)> = mined.iter().filter(|(c, _)| w.is_unspent(&grin_util::secp::pedersen::Commitment::from_vec(unhex(c).unwrap()))).collect();
+		rep.eval();
+		if prop == "C04" {
+			let r1 = wal.info(true, 1);
+			let _ = wal.set_account("mining");
+			let r2 = wal.info(true, 1);
+			match (r1, r2) {
+				(Ok((true, _)), Ok((true, info))) => {
+					let outs = wal.all_outputs().unwrap_or_default();
+					let have: Vec<String> = outs.iter().filter(|o| o.status == OutputStatus::Unspent).map(|o| grin_util::ToHex::to_hex(&wal.commit_of(o))).collect();
+					let missing: Vec<&&(String, u64)> = in_utxo.iter().filter(|(c, _)| !have.contains(c)).collect();
+					let want: u64 = in_utxo.iter().map(|(_, v)| *v).sum();
+					if !missing.is_empty() {
+						rep.violation("C04|utxo-output-forgotten|other-account-refreshed-first", &format!("account 'mining' holds {} outputs in the UTXO set (value {}), but after refreshing 'default' and then 'mining' {} of them are not recorded (account total {})", in_utxo.len(), want, missing.len(), info.total), case.clone());
+					} else if info.total != want {
+						rep.violation("C04|figures|other-account-refreshed-first", &format!("account 'mining' reports total {} but its outputs in the UTXO set are worth {}", info.total, want), case.clone());
+					} else {
+						rep.count("books:judged-for-an-account-refreshed-after-another");
+						rep.distinct(&("acct-refresh-order", n_cb, extra));
+					}
+				}
+				_ => rep.inconclusive("refresh not validated"),
+			}
+		} else {
+			// C16: a scan of the last blocks only, run while 'default' is active and 'mining' has never been refreshed;
+			// whatever the wallet had recorded and is in the UTXO set must still be recorded (as unspent) afterwards
+			let before: Vec<String> = wal.all_outputs().unwrap_or_default().iter().map(|o| grin_util::ToHex::to_hex(&wal.commit_of(o))).collect();
+			let start = tip.saturating_sub(5 + rng.below(10));
+			match wal.scan(Some(start), false) {
+				Err(e) => rep.violation(&format!("C16|partial-scan-failed|{}", err_kind(&e)), &format!("{:?}", e), case.clone()),
+				Ok(()) => {
+					let after: Vec<String> = wal.all_outputs().unwrap_or_default().iter().filter(|o| o.status == OutputStatus::Unspent).map(|o| grin_util::ToHex::to_hex(&wal.commit_of(o))).collect();
+					let lost: Vec<&String> = before.iter().filter(|c| !after.contains(c) && w.is_unspent(&grin_util::secp::pedersen::Commitment::from_vec(unhex(c).unwrap()))).collect();
+					if !lost.is_empty() {
+						rep.violation("C16|partial-scan|lost-outputs-below-its-range", &format!("a scan starting at height {} (tip {}) removed {} unspent records whose outputs are in the UTXO set below its range", start, tip, lost.len()), case.clone());
+					} else {
+						rep.count("partial-scan:keeps-records-below-its-range");
+						rep.distinct(&("acct-partial-scan", n_cb, tip - start));
+					}
+				}
+			}
+		}
+		let _ = wal.set_account("default");
+		drop(w);
+		let _ = std::fs::remove_dir_all(&dir);
+	}
+	rep.sample(json!({"scenario": "coinbases built into a non-active account, >100 blocks later"}));
+	rep.write(&a.out);
+}
